@@ -174,6 +174,74 @@ def shuffle_orders(db, rng):
     return done
 
 
+def add_edge_frames(db, rng, C):
+    """one or two extra frames whose signals sit at the edges of their types"""
+    used = {f.arbitration_id.id for f in db.frames}
+    added = []
+    Dd = decimal.Decimal
+
+    def new_frame(name):
+        fid = next(i for i in range(0x300 + rng.randrange(0x100), 0x800) if i not in used)
+        used.add(fid)
+        fr = C.Frame(name, arbitration_id=C.ArbitrationId(fid, False), size=8)
+        if db.ecus:
+            fr.add_transmitter(rng.choice(db.ecus).name)
+        return fr
+
+    def finish(fr):
+        for s in fr.signals:
+            if db.ecus and rng.random() < 0.5:
+                s.add_receiver(rng.choice(db.ecus).name)
+        fr.update_receiver()
+        db.add_frame(fr)
+        added.append(fr.name)
+    kinds = rng.sample(["u64", "s64", "floats", "digits"], rng.randrange(1, 3))
+    for k in kinds:
+        le = rng.random() < 0.5
+        if k == "u64":
+            fr = new_frame("FEdgeU64_%d" % rng.randrange(100))
+            s = C.Signal("BigUnsigned", start_bit=0, size=64, is_little_endian=le, is_signed=False)
+            s.min, s.max = Dd(0), Dd(2 ** 64 - 1)
+            s.initial_value = Dd(rng.choice([2 ** 64 - 1, 12345678901234567890, 10 ** 18 + 1, 999999999999999999]))
+            fr.add_signal(s)
+        elif k == "s64":
+            fr = new_frame("FEdgeS64_%d" % rng.randrange(100))
+            s = C.Signal("BigSigned", start_bit=0, size=64, is_little_endian=le, is_signed=True)
+            s.min, s.max = Dd(-2 ** 63), Dd(2 ** 63 - 1)
+            s.initial_value = Dd(rng.choice([-2 ** 63, 2 ** 63 - 1, -1234567890123456789, 0]))
+            fr.add_signal(s)
+        elif k == "floats":
+            fr = new_frame("FEdgeFloat_%d" % rng.randrange(100))
+            if rng.random() < 0.5:
+                a = C.Signal("F32", start_bit=0, size=32, is_little_endian=le, is_signed=False, is_float=True,
+                             factor=Dd(rng.choice(["1", "3", "0.7"])), offset=Dd(rng.choice(["0", "0.1"])))
+                a.min, a.max = Dd(-10 ** 6), Dd(10 ** 6)
+                a.initial_value = Dd(rng.choice(["1.5", "1", "0.3", "-2.25", "0"]))
+                b = C.Signal("I32", start_bit=32, size=32, is_little_endian=le, is_signed=True)
+                b.min, b.max = Dd(-2 ** 31), Dd(2 ** 31 - 1)
+                b.initial_value = Dd(rng.choice([-2 ** 31, 2 ** 31 - 1, 0]))
+                fr.add_signal(a)
+                fr.add_signal(b)
+            else:
+                a = C.Signal("F64", start_bit=0, size=64, is_little_endian=le, is_signed=False, is_float=True,
+                             factor=Dd(rng.choice(["1", "3", "0.001"])))
+                a.min, a.max = Dd(-10 ** 12), Dd(10 ** 12)
+                a.initial_value = Dd(rng.choice(["1", "0.1", "123456.789", "-7"]))
+                fr.add_signal(a)
+        else:
+            fr = new_frame("FEdgeDigits_%d" % rng.randrange(100))
+            s = C.Signal("ManyDigits", start_bit=0, size=48, is_little_endian=le, is_signed=False,
+                         factor=Dd(rng.choice(["0.000123456789012345", "1.00000000000000001", "3"])),
+                         offset=Dd(rng.choice(["-1234567.000000001", "0", "0.333333333333333333"])))
+            lo, hi = s.calculate_raw_range()
+            x, y = s.offset + lo * s.factor, s.offset + hi * s.factor
+            s.min, s.max = min(x, y), max(x, y)
+            s.initial_value = s.offset + rng.choice([1, 2 ** 47, 2 ** 48 - 1]) * s.factor
+            fr.add_signal(s)
+        finish(fr)
+    return added
+
+
 # attribute definitions of kinds the DBC format does not know / that are oddly written (Define() leaves .type None for them):
 # what every SYM import registers (BOOL, STR), an empty definition, lower-case type words, ENUMs with odd quoting
 ODD_DEFINES = ["BOOL False True", "STR", "", "int 0 10", "string", "BOOL", 'ENUM  "a b","c,d", "e"', "ENUM a,b", 'ENUM "x"',
@@ -281,6 +349,16 @@ def reread_case(base_seed, idx, C):
 
 
 def build_case(base_seed, idx, C):
+    """see _build_case; building a case may itself run writers and readers (read-back cases): whatever they do to the thread's decimal
+    context is undone here, so that a case is always judged from the same starting point"""
+    saved = decimal.getcontext().copy()
+    try:
+        return _build_case(base_seed, idx, C)
+    finally:
+        decimal.setcontext(saved)
+
+
+def _build_case(base_seed, idx, C):
     """-> (matrix or None, feature dict).  idx in -1..-N_CORPUS: the fixed corpus; idx <= FILE_BASE: a shipped sample file read by
     its reader; idx >= REREAD_BASE: a generated matrix written and read back through one format; else generated, profiles cycle
     with idx so every tier sees all of them."""
@@ -335,6 +413,10 @@ def build_case(base_seed, idx, C):
         fr.update_receiver()
         db.add_frame(fr)
         info["bigmux"] = dict(width=w, values=vals)
+    # ---- values at the edge of what the types carry: 64 bit integers with 18-20 digit start values and limits, float signals with
+    #      non-zero / non-terminating start values, many-digit factors (whatever a writer computes with them must not leave a trace) ----
+    if idx % 3 != 2:
+        info["edge_values"] = add_edge_frames(db, random.Random(base_seed * 389 + idx), C)
     # ---- attribute definitions of kinds a writer may want to 'repair' ----
     if idx % 2 == 1:
         info["odd_defines"] = add_odd_defines(db, random.Random(base_seed * 977 + idx))
@@ -685,6 +767,83 @@ def snapshot(o, memo=None):
             d[k] = snapshot(vars(o)[k], memo)
         return d
     return {"__repr__": repr(o)}
+
+
+def ambient_state():
+    """process-wide state an export could leave behind: arithmetic context, locale, working directory, environment, interpreter
+    limits, warning/logging switches, and every plain-data global of the canmatrix modules (module-level tables and caches)"""
+    import locale
+    import logging
+    import sys
+    import types
+    import warnings
+    ctx = decimal.getcontext()
+    st = dict(decimal=dict(prec=ctx.prec, rounding=ctx.rounding, Emin=ctx.Emin, Emax=ctx.Emax, capitals=ctx.capitals, clamp=ctx.clamp,
+                           traps=sorted(str(k) for k, v in ctx.traps.items() if v)),
+              locale=[str(locale.getlocale(c)) for c in (locale.LC_NUMERIC, locale.LC_CTYPE, locale.LC_TIME)],
+              cwd=os.getcwd(), environ=digest(dict(os.environ)), recursion=sys.getrecursionlimit(), sys_path=digest(list(sys.path)),
+              warnings=len(warnings.filters), logging=[logging.root.level, logging.root.manager.disable],
+              default_encoding=sys.getdefaultencoding())
+    mods = {}
+    for name in sorted(sys.modules):
+        if name == "canmatrix" or name.startswith("canmatrix."):
+            m = sys.modules[name]
+            g = {}
+            for k, v in sorted(vars(m).items()):
+                if k.startswith("__") or isinstance(v, (types.ModuleType, types.FunctionType, types.BuiltinFunctionType, type, logging.Logger)):
+                    continue
+                if isinstance(v, (bool, int, float, str, bytes, decimal.Decimal, list, tuple, dict, set, frozenset)) or v is None:
+                    g[k] = digest(snapshot(v))
+            mods[name] = g
+    st["canmatrix_module_globals"] = mods
+    return st
+
+
+def reference_matrix(C):
+    """a small fixed matrix with values at the edges; how it decodes and exports must not depend on what was exported before"""
+    db = C.CanMatrix()
+    db.add_ecu(C.Ecu("RefA"))
+    fr = C.Frame("RefBig", arbitration_id=C.ArbitrationId(0x7A0, False), size=8)
+    s = C.Signal("RefU64", start_bit=0, size=64, is_little_endian=True, is_signed=False)
+    s.min, s.max = decimal.Decimal(0), decimal.Decimal(2 ** 64 - 1)
+    s.initial_value = decimal.Decimal(12345678901234567890)
+    fr.add_signal(s)
+    fr.add_transmitter("RefA")
+    db.add_frame(fr)
+    fr = C.Frame("RefScaled", arbitration_id=C.ArbitrationId(0x7A1, False), size=8)
+    a = C.Signal("RefF32", start_bit=0, size=32, is_little_endian=True, is_signed=False, is_float=True, factor=decimal.Decimal(3))
+    a.min, a.max = decimal.Decimal(-1000), decimal.Decimal(1000)
+    a.initial_value = decimal.Decimal(1)
+    b = C.Signal("RefThird", start_bit=32, size=32, is_little_endian=True, is_signed=False, factor=decimal.Decimal("0.333333333333333333333"),
+                 offset=decimal.Decimal("-0.000000000000000000001"))
+    b.min, b.max = decimal.Decimal(-1), decimal.Decimal(2 ** 32)
+    fr.add_signal(a)
+    fr.add_signal(b)
+    db.add_frame(fr)
+    return db
+
+
+def behaviour_probe(C, F):
+    """decode, scaling API and a few exports of a FRESHLY BUILT reference matrix, as one digest-able value"""
+    db = reference_matrix(C)
+    out = []
+    for fr in db.frames:
+        for p in (bytes([0xFF] * 8), bytes(range(1, 9))):
+            out.append([[k, str(v.raw_value), str(v.phys_value)] for k, v in fr.decode(p).items()])
+    big = db.frames[0].signals[0]
+    third = db.frames[1].signals[1]
+    out.append([str(big.raw2phys(2 ** 64 - 1)), str(big.phys2raw(decimal.Decimal(2 ** 64 - 1))), str(third.raw2phys(2 ** 32 - 1)),
+                str(third.phys2raw(decimal.Decimal("1431655764.999999999998568344235")))])
+    n = C.Signal("Fresh", size=64, is_signed=False)
+    out.append([str(n.calc_min()), str(n.calc_max()), str(decimal.Decimal(1) / decimal.Decimal(3))])
+    saved = decimal.getcontext().copy()
+    try:
+        for w in ("dbc", "json_all", "sym"):
+            r = try_export(F, db, w)
+            out.append([w, r[0], hashlib.sha256(r[1]).hexdigest()[:16] if r[0] == "ok" else r[1]])
+    finally:
+        decimal.setcontext(saved)      # the probe's own exports must not be what the next probe sees
+    return out
 
 
 def state(db, base_seed, idx):
